@@ -492,7 +492,7 @@ def r3(ctx: Ctx, rep: Report, wire: Wire):
                 any(ev.kind == "test" and ev.data is True and isinstance(ev.node, ast.UnaryOp) for ev in p.events)
             tests = {norm(ev.node): ev.data for ev in p.events if ev.kind == "test"}
             modbus = next((v for k, v in tests.items() if "startswith('modbus')" in k), None)
-            setting_falsy = any(_lookup_truth(fn, ev) is False for ev in p.events if ev.kind == "test")
+            setting_falsy = any(_lookup_truth(p.fn_at(i_, fn), ev) is False for i_, ev in enumerate(p.events) if ev.kind == "test")       # (the lookup may sit in a helper)
             is_time = next((v for k, v in tests.items() if "== 'time'" in k), False)
             if not setting_falsy or modbus or is_time:
                 continue
